@@ -121,7 +121,11 @@ ScopeCfgs(S) == {c \in {ScopeCfg(S, refs, sc) : refs \in [S -> SUBSET S], sc \in
 ScopeOps(S) == {OpGet(s) : s \in S} \cup {OpGetInContext(c, s) : c \in {1, 2}, s \in S} \cup {OpGetTaggedBy("t1")}
 (* "scopeg": the same graphs, s1 reached through its generated getters (the typed getter of a service resolves its     *)
 (* contextual dependencies in the context it was given, like GetInContext)                                           *)
-ScopeCfgsG(S) == {[c EXCEPT !.services["s1"].getter = "GetS1", !.services["s1"].type = "*fx.T"] : c \in ScopeCfgs(S)}
+(* ... and with s1 reaching s2 only through the tag s2 carries (`!tagged t1` instead of `@s2`): the derived scope follows tags too *)
+ViaTag(c) == [c EXCEPT !.services["s1"].args = [i \in 1..Len(@) |-> IF @[i] = ASvc("s2") THEN ATagged("t1") ELSE @[i]]]
+WithGetterS1(c) == [c EXCEPT !.services["s1"].getter = "GetS1", !.services["s1"].type = "*fx.T"]
+ScopeCfgsG(S) == {WithGetterS1(c) : c \in ScopeCfgs(S)}
+                 \cup {WithGetterS1(x) : x \in {y \in {ViaTag(c) : c \in ScopeCfgs(S)} : OutputAccepted(y, [ignoreP |-> FALSE, ignoreS |-> FALSE])}}
 ScopeOpsG == {OpGetter("GetS1"), OpGetterIn(1, "GetS1"), OpGetterIn(2, "GetS1"), OpGetInContext(1, "s2"), OpGetInContext(2, "s2"),
               OpGetInContext(1, "s1"), OpGet("s1")}
 (* "scope2m": every service re-opened by a later file that adds a tag and says nothing about the scope (Merge.tla:  *)
